@@ -19,6 +19,9 @@ from . import env
 from .result import Result
 
 MAX_VIOLATION_LINES = 40
+# evidence/ and replays/ live under /verif unless VERIF_OUT redirects them (used by the
+# mutation self-tests so that runs against mutated copies never touch the real evidence)
+OUT_ROOT = os.environ.get("VERIF_OUT") or env.VERIF
 
 
 def _load_known():
@@ -143,7 +146,7 @@ def main(argv=None):
         else:
             new_classes[cls] = v
 
-    rdir = os.path.join(env.VERIF, "replays", pid)
+    rdir = os.path.join(OUT_ROOT, "replays", pid)
     if os.path.isdir(rdir):  # replays of earlier runs are stale
         import shutil
 
@@ -183,8 +186,8 @@ def main(argv=None):
         "wall_s": round(wall, 3),
         "violations": len(new_classes),
     }
-    os.makedirs(os.path.join(env.VERIF, "evidence"), exist_ok=True)
-    epath = os.path.join(env.VERIF, "evidence", f"{pid}.json")
+    os.makedirs(os.path.join(OUT_ROOT, "evidence"), exist_ok=True)
+    epath = os.path.join(OUT_ROOT, "evidence", f"{pid}.json")
     tmp = epath + ".tmp"
     with open(tmp, "w") as fh:
         json.dump(evidence, fh, indent=1, default=str)
